@@ -39,3 +39,45 @@ rtg("C19", "replica-pair sweep over random down-sets with the hello decision che
     "should_sync_on_hello(false) is accepted only when every non-merge command of the advertiser is committed locally (a merge is derivable from its parents and carries nothing); equal head sets give equal hello heads; a replica without the graph always syncs.")
 rtg("C20", "model-based checking of PeerCache::add_command on random address streams",
     "<=10 entries, each committed locally with that max_cut, pairwise non-ancestors, and the documented update rule (evict ancestors, ignore ancestors-of-entries, uncommitted/flushed/unknown/wrong-max_cut addresses).")
+
+reg("C12", native("mon-rt", "rt_facts"),
+    "model-based checking of Query/QueryMut on perspectives, written fact indexes and rebuilt perspectives against a BTreeMap",
+    "Random insert/delete streams over compound keys (empty, NUL, prefix-of-each-other components) across up to 40 chained segments (beyond the 16-deep compaction limit): "
+    "after every command boundary, every written index, the committed fact cache and perspectives rebuilt at earlier commands, all exact queries on every key ever used and "
+    "all prefix queries on every prefix of them equal the map; prefix results ascending.",
+    "Public Storage/Perspective API on in-memory linear storage; merge perspectives are covered by the C03 workload.", design_ref="DESIGN.md 4 (C12)")
+reg("C13", native("mon-rt", "rt_facts"),
+    "snapshot-stack model for checkpoint/revert on linear perspectives; session reverts via failing session operations",
+    "Random writes, deletes, add_command, checkpoints at command boundaries and reverts to any earlier checkpoint, including reverts that must discard writes made after the last command "
+    "(a rule that wrote and then failed); every revert is followed by the full query comparison and a head_address check; the segment finally written is compared too.",
+    "Linear-perspective checkpoints have command granularity by construction (index = command count), so they are taken only where the runtime takes them.", design_ref="DESIGN.md 4 (C13)")
+reg("C14", native("mon-rt", "rt_facts") + one("miri", "mon-rt", "rt_facts", scale=1, timeout=2400),
+    "overlay model (committed facts + session writes) vs queries observed inside policy calls; Miri on the yoked iterator",
+    "Session actions and receives run audit-policy scripts that insert, delete (also committed facts), exact-query and fail at chosen points; after every operation a second action records prefix "
+    "queries and they must equal the model in key order; failed operations leave the next observation unchanged; heads and committed facts never change. A small slice runs under Miri.",
+    "Sessions on in-memory storage; policy scripts are harness-defined.", design_ref="DESIGN.md 4 (C14)")
+
+reg("C21", native("mon-rt", "rt_queue", set={}),
+    "model-based checking of TraversalQueue against the documented rules over random operation sequences",
+    "4x10^5 (quick) random sequences of up to 60 operations over 4 segments x 6 max-cuts, in dedup mode and duplicate mode compared with a 40-line list model after every operation "
+    "(pop/peek = highest Location, one entry per segment with the highest max cut, covered/uncovered merge rules, cover_up_to, drain_above yields exactly the uncovered entries above the threshold, "
+    "final content equality), and a mixed mode checked for no panic and pop == peek.",
+    "The model encodes the rules in the doc comments of TraversalQueue; mixed dedup/duplicate use has no documented content rule and is only checked for pop-is-max.", design_ref="DESIGN.md 4 (C21)")
+
+reg("C16", native("mon-rt", "rt_sync"),
+    "session-by-session progress oracle over real SyncRequester/SyncResponder exchanges between generated replica pairs and groups, plus convergence at quiescence",
+    "A requests from B in repeated sessions (full sessions; one-request/one-response exchanges; receive buffers from 200 bytes up; persistent or fresh peer caches) over graph pairs with overlaps from only-init to "
+    "all-but-one-branch, including >100 heads, >100 segments and long segments: every full session must shrink the missing set, everything must arrive within a logical bound, and syncing in both directions "
+    "to quiescence must leave equal heads, facts and hello heads. The 'eventually' of the statement is restated as this bounded progress.",
+    "Known finding (known_findings.jsonl): requesters holding more than 100 heads livelock; any other lack of progress fails the check. In-memory storage; message transport is a buffer copy.",
+    design_ref="DESIGN.md 4 (C16/C17)")
+reg("C17", native("mon-rt", "rt_sync"),
+    "per-message soundness and ordering checks on every response of every session",
+    "Every synced command must be committed at the responder with identical priority/parent/payload/policy, arrive after its parents (add_commands must accept the batch), response indexes must count 0,1,2,.., "
+    "a full session must end with SyncEnd{max_index = #responses} within a logical poll bound, and BufferTooSmall retries must not lose commands.",
+    "Response indexes are read with a 20-line postcard varint parser in the harness.", design_ref="DESIGN.md 4 (C16/C17)")
+reg("C18", native("mon-rt", "rt_sync"),
+    "mutation fuzzing of recorded real sync messages with panic capture, pointer-range and session/sequence acceptance oracles (debug and release profiles)",
+    "2x10^5 (quick) mutated or random inputs are fed to SyncIncoming::decode, SyncResponder::receive+poll+push on a real graph, SyncRequester::receive in three states and receive_push: no panic in either profile, "
+    "returned command slices must lie inside the input buffer, and commands are accepted only under the requester's own session id at the expected response index.",
+    "Inputs are mutations of messages recorded from generated sessions plus random bytes; no coverage guidance in the quick tier.", design_ref="DESIGN.md 4 (C18)")
